@@ -1727,7 +1727,8 @@ impl Unit {
                     block.stmts.push(st.clone());
                 }
             }
-            let ends_with_value = spec.to_block_end && matches!(block.stmts.last(), Some(Stmt::Expr(_, None)));
+            let ends_with_value = spec.to_block_end
+                && matches!(block.stmts.last(), Some(Stmt::Expr(e, None)) if !matches!(e, Expr::ForLoop(_) | Expr::While(_)));
             match &spec.yield_ident {
                 _ if ends_with_value => {} // the enclosing block's own tail expression is the slice's result
                 Some(y) => {
